@@ -80,6 +80,7 @@ void event_sink(const void* object, const char* name, const void* /*ptr*/, std::
 }
 
 // ---------------------------------------------------------------- schedule perturbation
+int g_start_delay_us = 0;
 int g_sched_prob = 30;
 int g_sched_max_us = 200;
 std::atomic<uint64_t> g_seed{1};
@@ -394,6 +395,9 @@ RunResult run_script(MakeReader&& make_reader, bool real, RealAcc* acc, bool met
     }
     {
         std::unique_ptr<oio::Reader> reader = make_reader();
+        // scheduling only (not an action of the model): give the read thread and the parser time to fill both queues
+        // before the consumer makes its first call
+        if (g_start_delay_us > 0) std::this_thread::sleep_for(std::chrono::microseconds(g_start_delay_us));
         for (std::size_t si = 0; si < g_cfg.script.size();) {
             const bool all = g_cfg.script[si] == "readall";
             const std::string op = all ? std::string{"read"} : g_cfg.script[si];
@@ -580,6 +584,7 @@ void run_case_inner(const json& c) {
     const int pool_threads = c.value("pool_threads", 2);
     g_sched_prob = c.value("sched_prob", 30);
     g_sched_max_us = c.value("sched_max_us", 200);
+    g_start_delay_us = c.value("start_delay_us", 0);
     const std::string trace_path = c.value("trace", std::string{});
     osmium::thread::Pool pool{pool_threads, static_cast<std::size_t>(c.value("qwork", 10))};
     bool first = true;
